@@ -59,6 +59,42 @@ def _params(rng, cls, dt):
             p.update(tc_membrane=rng.choice([5.0, 20.0]), tc_adaptation=[rng.choice([10.0, 50.0]) for _ in range(K)],
                      voltage_coupling=[rng.choice([0.0, 0.2, -0.1]) for _ in range(K)],
                      spike_increment=[rng.choice([0.0, 2.0, 8.0]) for _ in range(K)])
+    if rng.random() < 0.35:
+        # off the menu: continuous draws inside the same documented domains (every value above is one fixed point of these ranges)
+        u = rng.uniform
+        p["refrac_t"] = round(u(0.0, 3.5 * dt), 4)
+        for k in list(p):
+            if k in ("time_constant", "tc_membrane"):
+                p[k] = round(u(1.0, 30.0), 3)
+            elif k == "resistance":
+                p[k] = round(u(0.3, 10.0), 3)
+            elif k == "rest_v":
+                p[k] = round(u(-75.0, -58.0), 2)
+            elif k in ("thresh_v", "thresh_eq_v"):
+                p[k] = round(u(-56.0, -40.0), 2)
+            elif k == "tc_adaptation":
+                p[k] = [round(u(5.0, 250.0), 2) for _ in p[k]]
+            elif k == "rc_adaptation":
+                p[k] = [round(u(0.005, 0.3), 4) for _ in p[k]]
+            elif k == "spike_increment":
+                p[k] = [round(u(-3.0, 8.0) if cls in THRESH_ADAPT else u(0.0, 8.0), 3) for _ in p[k]]
+            elif k == "voltage_coupling":
+                p[k] = [round(u(-0.15, 0.3), 3) for _ in p[k]]
+            elif k == "reset_v" :
+                p[k] = round(u(-80.0, -57.0), 2)
+            elif k == "reset_v_add":
+                p[k] = round(u(0.0, 6.0), 2)
+            elif k == "reset_v_mul":
+                p[k] = round(u(0.0, 0.6), 3)
+            elif k == "affinity":
+                p[k] = round(u(0.02, 1.0), 3)
+            elif k == "sharpness":
+                p[k] = round(u(0.8, 6.0), 3)
+        for k in ("crit_v", "rheobase_v"):
+            if k in p:
+                p[k] = round(u(p["rest_v"] + 2.0, -45.0), 2)
+                p["thresh_v"] = rng.choice([p[k], round(u(p[k], p[k] + 70.0), 2)])     # documented: crit / rheobase <= threshold
+                p["reset_v"] = round(u(p["thresh_v"] - 30.0, p["thresh_v"] - 0.5), 2)     # documented: reset < threshold
     return p
 
 
@@ -68,7 +104,7 @@ def generate(ctx):
     n = 1000 if th else 112
     for i in range(n):
         cls = CLASSES[i % 8]
-        dt = rng.choice([1.0, 0.5, 0.1, 1.3])
+        dt = rng.choice([1.0, 0.5, 0.1, 1.3, round(rng.uniform(0.05, 2.5), 3)])
         T = rng.randint(40, 200 if th else 90)
         steps = []
         for _ in range(T):
@@ -243,10 +279,10 @@ def run_case(ctx, desc):
             if adaptive and st["lock"] and desc["B"] == 1 and (st["adapt"] or (st["adapt"] is None and st["train"])):
                 m = np.broadcast_to(inwin[0][..., None], a0.shape)
                 ctx.count("adaptation_freeze_checks", int(m.sum()))
-                if not np.array_equal(a1[m], a0[m]):
+                if not np.array_equal(a1[m], a0[m], equal_nan=True):
                     return ctx.violation(f"{cls}.I6.adaptation_changed_while_refractory", "adaptation changed during the refractory period", rdesc)
         if adaptive and not (st["adapt"] or (st["adapt"] is None and st["train"])):
-            if not np.array_equal(a1, a0):
+            if not np.array_equal(a1, a0, equal_nan=True):
                 return ctx.violation(f"{cls}.adapt_off.adaptation_changed", "adaptation changed although adapt was off", rdesc)
         # ---- model-based one-step contract (float64) ----------------------------------------------------
         if f64:
